@@ -373,6 +373,28 @@ func judge(prop string, s *Suite, spec *HarnessSpec, res *HarnessResult, known [
 		confirmed = append(confirmed, v.Kind+"/"+v.ID)
 		code = 1
 	}
+	// translator validation: completed symbolic paths are replayed natively
+	// and must complete there too (same assumptions hold, no assertion fails)
+	if !spec.NoNative && len(confirmed) == 0 {
+		nrep := 1
+		if ev.tier == "thorough" {
+			nrep = 3
+		}
+		for i, tp := range res.DoneTapes {
+			if i >= nrep {
+				break
+			}
+			pv := &Violation{Harness: spec.Fn, Kind: "pass", Tape: tp}
+			ok, out, err := nativeReplay(s, spec, pv)
+			if err != nil || !ok {
+				fmt.Printf("ENGINE-DISAGREEMENT property=%s harness=%s a completed symbolic path does not complete natively\n%s\n", prop, spec.Fn, tail(out, 25))
+				inconclusive("a completed symbolic path did not complete natively (engine or harness disagrees with the compiled code)")
+			} else {
+				ev.replayed++
+				ev.passReplayed++
+			}
+		}
+	}
 	if res.TimedOut {
 		inconclusive(fmt.Sprintf("wall budget exhausted after %d paths (bound not completed)", totalPaths(res)))
 	}
